@@ -1,0 +1,77 @@
+//go:build verif
+
+package spine
+
+import (
+	"sync/atomic"
+
+	"github.com/enbility/spine-go/api"
+)
+
+// This file is only compiled with the build tag "verif". It gives a verification
+// harness yield points at the places marked with verifPoint and read-only access
+// to some internal state. Nothing in here runs unless a harness installs a hook.
+
+var verifHook atomic.Pointer[func(point string, obj any)]
+
+// SetVerifHook installs the function called at every verifPoint (nil removes it).
+func SetVerifHook(f func(point string, obj any)) {
+	if f == nil {
+		verifHook.Store(nil)
+		return
+	}
+	verifHook.Store(&f)
+}
+
+func verifPoint(point string, obj any) {
+	if f := verifHook.Load(); f != nil {
+		(*f)(point, obj)
+	}
+}
+
+// VerifApprovalState returns the number of pending write approval timers and the
+// number of writes with counted approvals, per SKI.
+func (r *FeatureLocal) VerifApprovalState() (pending map[string]int, received map[string]int) {
+	pending = make(map[string]int)
+	received = make(map[string]int)
+
+	r.muxResponseCB.Lock()
+	for ski, timers := range r.pendingWriteApprovals {
+		pending[ski] = len(timers)
+	}
+	r.muxResponseCB.Unlock()
+
+	r.muxWriteReceived.Lock()
+	for ski, counts := range r.writeApprovalReceived {
+		received[ski] = len(counts)
+	}
+	r.muxWriteReceived.Unlock()
+
+	return pending, received
+}
+
+// VerifRequestCacheLen returns the number of remembered unanswered requests.
+func (c *Sender) VerifRequestCacheLen() int {
+	c.muxReadCache.RLock()
+	defer c.muxReadCache.RUnlock()
+
+	return len(c.reqMsgCache)
+}
+
+// VerifSubscribeCore subscribes a handler at the core level.
+func VerifSubscribeCore(handler api.EventHandlerInterface) error {
+	return Events.subscribe(api.EventHandlerLevelCore, handler)
+}
+
+// VerifUnsubscribeCore removes a handler subscribed at the core level.
+func VerifUnsubscribeCore(handler api.EventHandlerInterface) error {
+	return Events.unsubscribe(api.EventHandlerLevelCore, handler)
+}
+
+// VerifHandlerCount returns the number of subscribed event handlers of all levels.
+func VerifHandlerCount() int {
+	Events.mu.Lock()
+	defer Events.mu.Unlock()
+
+	return len(Events.handlers)
+}
